@@ -52,18 +52,23 @@ var (
 	vCurCtl   *vCtl
 )
 
+var vHookOnce sync.Once
+
 func vInstallCtl(c *vCtl) {
 	vCurCtlMu.Lock()
 	vCurCtl = c
 	vCurCtlMu.Unlock()
-	VerifHook = func(kind string, phase int, args ...any) {
-		vCurCtlMu.Lock()
-		ctl := vCurCtl
-		vCurCtlMu.Unlock()
-		if ctl != nil {
-			ctl.hook(kind, phase, args)
+	// the hook variable itself is written once, before any manager goroutine exists
+	vHookOnce.Do(func() {
+		VerifHook = func(kind string, phase int, args ...any) {
+			vCurCtlMu.Lock()
+			ctl := vCurCtl
+			vCurCtlMu.Unlock()
+			if ctl != nil {
+				ctl.hook(kind, phase, args)
+			}
 		}
-	}
+	})
 }
 
 func (c *vCtl) hook(kind string, phase int, args []any) {
